@@ -121,6 +121,17 @@ def scenarios(ctx):
     tok3 = {"payload": pay, "protected": G.enc({"alg": "RS256"}), "signature": G.b64u(bytes(256))}
     out.append(("jws.ver", {"jws": tok3, "jwk": pool["RSA-2048"], "all": True}))
     out.append(("jws.ver_io", {"jws": {k: v for k, v in tok2.items() if k != "payload"}, "jwk": pool["EC-P256"], "all": False, "feeds": [pay.encode().hex()]}))
+    # (r, s) = (Qx mod n, Qx mod n) verifies the all-zero digest under any EC key: a verifier that loses its digest to a
+    # failed allocation and carries on would accept it
+    import ecmath
+    for kn, alg in (("EC-P256", "ES256"), ("EC-P384", "ES384"), ("EC-P521", "ES512"), ("EC-K256", "ES256K")):
+        k_ = pool[kn]
+        n_ = ecmath.CURVES[k_["crv"]]["n"]
+        w_ = len(G.b64d(k_["x"]))
+        r_ = int.from_bytes(G.b64d(k_["x"]), "big") % n_
+        tokz = {"payload": pay, "protected": G.enc({"alg": alg}), "signature": G.b64u(r_.to_bytes(w_, "big") * 2)}
+        out.append(("jws.ver", {"jws": tokz, "jwk": K.public(k_), "all": False}))
+        out.append(("jws.ver_io", {"jws": {k: v for k, v in tokz.items() if k != "payload"}, "jwk": K.public(k_), "all": False, "feeds": [pay.encode().hex()]}))
     # IO chains and codecs
     for ch in (["b64enc", ["malloc"]], ["b64dec", ["malloc"]], ["hash", "S256", ["buffer", 32]], ["hash", "S512", ["b64enc", ["malloc"]]],
                ["deflate", ["inflate", ["malloc"]]], ["plex", True, [["b64enc", ["malloc"]], ["hash", "S384", ["buffer", 48]]]],
